@@ -278,4 +278,159 @@ let run_case op t =
                e (ds_mul_m y c); e (ds_mul_m y c); e (ds_div_m y c) ], "na")
      | _ -> raise Not_found)
 
+(* ---- representation types of either signedness and of 8..64 bits (ops "u_*", harness variant "urep"):
+   model = extracted UModel.v, spec = Spec.v values inside the extracted USpec.v domain predicates *)
+type upc = {
+  xa : dty; xb : dty; xn1 : z; xd1 : z; xn2 : z; xd2 : z; xr1 : z; xr2 : z; xpok : bool; xrc : z;
+  xplus : (z -> z -> z out) Lazy.t; xminus : (z -> z -> z out) Lazy.t;
+  xtp_plus : (z -> z -> z out) Lazy.t; xtp_plus_r : (z -> z -> z out) Lazy.t;
+  xtp_minus : (z -> z -> z out) Lazy.t; xtp_diff : (z -> z -> z out) Lazy.t;
+  xdiv : (z -> z -> z out) Lazy.t; xmod : (z -> z -> z out) Lazy.t;
+  xcmps : (z -> z -> bool out) list Lazy.t;
+  xsmul : (z -> z -> z out) Lazy.t; xsdiv : (z -> z -> z out) Lazy.t; xsmod : (z -> z -> z out) Lazy.t;
+  xconv : (z -> z out) Lazy.t; xconvertible : bool out Lazy.t;
+  xcast : (z -> z out) Lazy.t; xfloor : (z -> z out) Lazy.t; xceil : (z -> z out) Lazy.t; xround : (z -> z out) Lazy.t;
+  xabs : (z -> z out) Lazy.t;
+  xboth_ok : (z -> z -> bool) Lazy.t; xplus_ok : (z -> z -> bool) Lazy.t; xminus_ok : (z -> z -> bool) Lazy.t;
+  xdiv_ok : (z -> z -> bool) Lazy.t; xcast_ok : (z -> bool) Lazy.t;
+  xfloor_ok : (z -> bool) Lazy.t; xceil_ok : (z -> bool) Lazy.t; xround_ok : (z -> bool) Lazy.t;
+  xplus_s : (z -> z -> z) Lazy.t; xminus_s : (z -> z -> z) Lazy.t; xmod_s : (z -> z -> z) Lazy.t;
+}
+let ucache : (string, upc option) Hashtbl.t = Hashtbl.create 1024
+
+let make_upc n1r d1r r1 n2r d2r r2 =
+  match mk_dty r1 n1r d1r, mk_dty r2 n2r d2r with
+  | Val a, Val b ->
+    let n1 = a.pn and d1 = a.pd and n2 = b.pn and d2 = b.pd in
+    Some { xa = a; xb = b; xn1 = n1; xd1 = d1; xn2 = n2; xd2 = d2; xr1 = r1; xr2 = r2;
+           xpok = period_ok n1 d1 && period_ok n2 d2 && urep_ok r1 && urep_ok r2;
+           xrc = crep_spec r1 r2;
+           xplus = lazy (uadd_m a b); xminus = lazy (usub_m a b);
+           xtp_plus = lazy (utp_plus_m a b); xtp_plus_r = lazy (utp_plus_r_m a b);
+           xtp_minus = lazy (utp_minus_m a b); xtp_diff = lazy (utp_diff_m a b);
+           xdiv = lazy (udiv_m a b); xmod = lazy (umod_m a b);
+           xcmps = lazy [ ueq_m a b; une_m a b; ult_m a b; ule_m a b; ugt_m a b; uge_m a b;
+                          utp_eq_m a b; utp_ne_m a b; utp_lt_m a b; utp_le_m a b; utp_gt_m a b; utp_ge_m a b ];
+           xsmul = lazy (usmul_m a r2); xsdiv = lazy (usdiv_m a r2); xsmod = lazy (usmod_m a r2);
+           xconv = lazy (uconv_m a b); xconvertible = lazy (uconvertible_m a b);
+           xcast = lazy (ucast_m a b); xfloor = lazy (ufloor_m a b); xceil = lazy (uceil_m a b);
+           xround = lazy (uround_m a b); xabs = lazy (uabs_m a);
+           xboth_ok = lazy (uboth_ok r1 n1 d1 r2 n2 d2); xplus_ok = lazy (uplus_ok r1 n1 d1 r2 n2 d2);
+           xminus_ok = lazy (uminus_ok r1 n1 d1 r2 n2 d2); xdiv_ok = lazy (udiv_ok r1 n1 d1 r2 n2 d2);
+           xcast_ok = lazy (ucast_ok r1 n1 d1 r2 n2 d2);
+           xfloor_ok = lazy (ufloor_ok r1 n1 d1 r2 n2 d2); xceil_ok = lazy (uceil_ok r1 n1 d1 r2 n2 d2);
+           xround_ok = lazy (uround_ok r1 n1 d1 r2 n2 d2);
+           xplus_s = lazy (plus_spec n1 d1 n2 d2); xminus_s = lazy (minus_spec n1 d1 n2 d2);
+           xmod_s = lazy (mod_spec n1 d1 n2 d2) }
+  | _, _ -> None
+
+let run_ucase op t =
+  let key = String.concat " " (List.filteri (fun k _ -> k < 9) t.rest) in
+  let _i = next_int t in
+  let _j = next_int t in
+  let _rc = next_int t in
+  let n1r = next_z t in let d1r = next_z t in let r1 = next_z t in
+  let n2r = next_z t in let d2r = next_z t in let r2 = next_z t in
+  let p = match Hashtbl.find_opt ucache key with
+    | Some p -> p
+    | None -> let p = make_upc n1r d1r r1 n2r d2r r2 in Hashtbl.add ucache key p; p in
+  match p with
+  | None -> ("illformed", "na")
+  | Some p ->
+    let n1 = p.xn1 and d1 = p.xd1 and n2 = p.xn2 and d2 = p.xd2 and pok = p.xpok and rc = p.xrc in
+    let sz = str_of_z in
+    (match op with
+     | "u_ctype" ->
+       ((match ucommon_m p.xa p.xb with
+           | Val t -> legs [ sz t.rw; sz t.pn; sz t.pd; sz (common_rep r1 r2); sz (cr3 r2 r1); "1" ]
+           | Ub _ -> "ub" | IllFormed -> "illformed" | Fuel -> "fuel"),
+        if pok && common_ok n1 d1 n2 d2 then
+          legs [ sz rc; sz (cnum n1 n2); sz (cden d1 d2); sz rc; sz (crep_spec (crep_spec r2 r1) (zi 64)); "1" ]
+        else "na")
+     | "u_plus" ->
+       let c1 = next_z t in let c2 = next_z t in
+       let s = f p.xplus_s c1 c2 in
+       (legs (List.map tok_of [ f p.xplus c1 c2; f p.xtp_plus c1 c2; utp_plus_r_m p.xa p.xb c1 c2 ]),
+        if pok && f p.xplus_ok c1 c2 then legs [ sz s; sz s; sz s ] else "na")
+     | "u_minus" ->
+       let c1 = next_z t in let c2 = next_z t in
+       let s = f p.xminus_s c1 c2 in
+       (legs (List.map tok_of [ f p.xminus c1 c2; f p.xtp_minus c1 c2; f p.xtp_diff c1 c2 ]),
+        if pok && f p.xminus_ok c1 c2 then legs [ sz s; sz s; sz s ] else "na")
+     | "u_div" ->
+       let c1 = next_z t in let c2 = next_z t in
+       (leg1 (f p.xdiv c1 c2), if pok && f p.xdiv_ok c1 c2 then okz (div_spec n1 d1 n2 d2 c1 c2) else "na")
+     | "u_mod" ->
+       let c1 = next_z t in let c2 = next_z t in
+       (leg1 (f p.xmod c1 c2), if pok && f p.xdiv_ok c1 c2 then okz (f p.xmod_s c1 c2) else "na")
+     | "u_cmp" ->
+       let c1 = next_z t in let c2 = next_z t in
+       let e = eq_spec n1 d1 n2 d2 c1 c2 and l = lt_spec n1 d1 n2 d2 c1 c2 in
+       let six = List.map b2s [ e; not e; l; l || e; not (l || e); not l ] in
+       (legs (List.map (fun g -> tokb_of (g c1 c2)) (f p.xcmps)),
+        if pok && f p.xboth_ok c1 c2 then legs (six @ six) else "na")
+     | "u_scalar" ->
+       let c = next_z t in let x = next_z t in
+       let ms = [ f p.xsmul c x; f p.xsmul c x; f p.xsdiv c x; f p.xsmod c x ] in
+       let nz = not (Z.eqb x Z0) in
+       let ss = if nz then [ Z.mul c x; Z.mul c x; Z.quot c x; Z.rem c x ] else [] in
+       (legs (List.map tok_of ms @ [ "1" ]),
+        if pok && nz && uscalar_ok r1 r2 c x && List.for_all (ufits rc) ss then legs (List.map sz ss @ [ "1" ]) else "na")
+     | "u_conv" ->
+       let c = next_z t in
+       let m = match f p.xconvertible with
+         | Val true -> (match f p.xconv c with Val v -> legs [ sz v; sz v ] | o -> leg1 o)
+         | Val false -> "illformed illformed"
+         | o -> tokb_of o in
+       let exact = Z.eqb (Z.modulo (Z.mul n1 d2) (Z.mul d1 n2)) Z0
+                   && Z.leb (Z.div (Z.mul n1 d2) (Z.mul d1 n2)) max64 in
+       let s =
+         if not pok then "na"
+         else if not exact then "illformed illformed"
+         else if f p.xcast_ok c then (let v = cast_spec n1 d1 n2 d2 c in legs [ sz v; sz v ]) else "na" in
+       (m, s)
+     | "u_cast" ->
+       let c = next_z t in
+       let m = f p.xcast c in
+       (legs [ tok_of m; tok_of m ],
+        if pok && f p.xcast_ok c then (let v = cast_spec n1 d1 n2 d2 c in legs [ sz v; sz v ]) else "na")
+     | "u_rnd4" ->
+       let c = next_z t in
+       let r = f p.xround c in
+       (legs [ tok_of (f p.xcast c); tok_of (f p.xfloor c); tok_of (f p.xceil c); tok_of r; tok_of r ],
+        if pok && f p.xcast_ok c && f p.xfloor_ok c && f p.xceil_ok c && f p.xround_ok c then
+          (let r = round_spec n1 d1 n2 d2 c in
+           legs (List.map sz [ cast_spec n1 d1 n2 d2 c; floor_spec n1 d1 n2 d2 c; ceil_spec n1 d1 n2 d2 c; r; r ]))
+        else "na")
+     | "u_unary" ->
+       let c = next_z t in
+       let one = zi 1 in
+       let i = uinc_m r1 c and d = udec_m r1 c in
+       let ti = utp_inc_m r1 c and td = utp_dec_m r1 c in
+       let ms = [ uneg_m r1 c; uuplus_m r1 c; i; i; Val c; i; d; d; Val c; d; ti; ti; Val c; ti; td; td; Val c; td ] in
+       let a = Z.add c one and b = Z.sub c one in
+       let ss = [ Z.opp c; c; a; a; c; a; b; b; c; b; a; a; c; a; b; b; c; b ] in
+       (legs (List.map tok_of ms),
+        if urep_ok r1 && List.for_all (ufits r1) ss then legs (List.map sz ss) else "na")
+     | "u_compound" ->
+       let c = next_z t in let x = next_z t in
+       let ms = [ uadd_assign_m r1 c x; usub_assign_m r1 c x; umul_assign_m r1 c x; udiv_assign_m r1 c x;
+                  umod_assign_m r1 c x; umod_assign_m r1 c x; utp_add_assign_m r1 c x; utp_sub_assign_m r1 c x ] in
+       let nz = not (Z.eqb x Z0) in
+       let ss = if nz then [ Z.add c x; Z.sub c x; Z.mul c x; Z.quot c x; Z.rem c x; Z.rem c x; Z.add c x; Z.sub c x ] else [] in
+       (legs (List.map tok_of ms),
+        if urep_ok r1 && nz && List.for_all (ufits r1) (c :: x :: ss) then legs (List.map sz ss) else "na")
+     | "u_abs" ->
+       let c = next_z t in
+       (leg1 (f p.xabs c),
+        (* [time.duration.alg]: abs participates only for a signed representation *)
+        if Z.ltb r1 Z0 then "illformed"
+        else if pok && uabs_ok r1 c then okz (abs_spec c) else "na")
+     | "u_limits" ->
+       (legs (List.map sz [ Z0; rmin r1; rmax r1; rmin r1; rmax r1 ]), "na")
+     | _ -> raise Not_found)
+
+let run_case op t =
+  if String.length op > 2 && String.sub op 0 2 = "u_" then run_ucase op t else run_case op t
+
 let () = main run_case
